@@ -506,7 +506,16 @@ func (g *vGen) runScenario(idx int, dir string) vVerdict {
 	_, diffNow := s.startSets()
 	maxRounds := 12 + 3*expireEvery + diffNow/40 + 4*nNodes
 	rounds := s.fairSuffix(maxRounds, expireEvery)
-	// stability: once all XORs are equal one more gossip round must produce nothing but gossip
+	post := s.stabilityProbe()
+	s.exec(&vOp{Op: "observe"})
+	feats = append(feats, fmt.Sprintf("expire-every=%d", expireEvery))
+	v := s.verdict("c07", first, rounds, maxRounds, startDiff, startSets, feats)
+	v.PostTraffic = post
+	return v
+}
+
+// stability: once all XORs are equal one more gossip round must produce nothing but gossip
+func (s *vSim) stabilityProbe() int {
 	post := 0
 	if s.allEqual() {
 		for _, cc := range s.sc.Conns {
@@ -524,11 +533,7 @@ func (g *vGen) runScenario(idx int, dir string) vVerdict {
 			}
 		}
 	}
-	s.exec(&vOp{Op: "observe"})
-	feats = append(feats, fmt.Sprintf("expire-every=%d", expireEvery))
-	v := s.verdict("c07", first, rounds, maxRounds, startDiff, startSets, feats)
-	v.PostTraffic = post
-	return v
+	return post
 }
 
 func vOpen(dir string) *vOut {
@@ -588,9 +593,19 @@ func vReplay(t *testing.T, path string, outDir string, build func(s *vSim, kind 
 	nsc := 0
 	var startSets []map[hash.SHA256Hash]bool
 	startDiff, first := 0, 0
+	lastOp := ""
 	finish := func() {
 		if s != nil && s.nodes != nil {
-			v := s.verdict("replay", first, 0, 0, startDiff, startSets, []string{"replay"})
+			rounds, post := 0, 0
+			if lastOp == "observe" && len(s.nodes) > 1 {
+				// the recorded schedule is a prefix: follow it with a fresh (adaptive) fair suffix
+				_, diffNow := s.startSets()
+				rounds = s.fairSuffix(30+diffNow/40, 1)
+				post = s.stabilityProbe()
+				s.exec(&vOp{Op: "observe"})
+			}
+			v := s.verdict("replay", first, rounds, 30, startDiff, startSets, []string{"replay"})
+			v.PostTraffic = post
 			fmt.Fprintln(out.oracle, vJSON(v))
 			s.endScenario()
 		}
@@ -624,6 +639,7 @@ func vReplay(t *testing.T, path string, outDir string, build func(s *vSim, kind 
 			if s != nil && s.nodes != nil {
 				op.Dec, op.Missing, op.Order = "", nil, nil
 				s.exec(&op)
+				lastOp = op.Op
 			}
 		}
 	}
